@@ -391,29 +391,126 @@ theorem comprehension_over_range_denotation (ctx : Ctx) (env : Env) (x : Name) (
     rw [this]
     simp
 
-/-- **The bound names of a range parameter are the range's own cells.**  `func f(r[lo .. hi] : range)` called with a range
-whose object holds the cells `lf`, `lt` binds `lo ↦ lf`, `hi ↦ lt` (no copy, no allocation): inside `f` the names read —
-and an assignment through a variable used as the bound changes — the caller's cells. -/
-theorem range_parameter_names_alias_bounds (p : Param) (l o lf lt : Loc) (lo hi : Name) (env : Env) (s : St)
-    (hv : s.mem[l]? = some (.rng (some o))) (ho : s.mem[o]? = some (.rngObj #[lf, lt]))
-    (hc : convTo p.ty (.rng (some o)) = none) (hd : p.dims = [lo, hi]) :
-    bindParams [p] [l] env s = .ok ((hi, lt) :: (lo, lf) :: (p.name, l) :: env) s := by
-  simp only [bindParams, convCell, bindDimsOf, bindDimsCells, rngCells, bind_eq, M.bind, load, hv, ho, hc, hd, pure, M.pure,
-    List.isEmpty_cons, Bool.false_eq_true, if_false, bindNames]
-
-/-- **The bound names of a slice parameter** `s[f .. t] : T` are fresh int cells holding 0 and |to − from| (`ID_DIM_SLICE`):
-the position range of the slice, not the bounds it was built with. -/
-theorem slice_parameter_names (p : Param) (l so ao ro lf lt : Loc) (f t : Name) (a b : Int32) (env : Env) (s : St)
-    (hv : s.mem[l]? = some (.slc (some so))) (hs : s.mem[so]? = some (.slcObj ao ro))
-    (hr : s.mem[ro]? = some (.rngObj #[lf, lt])) (hf : s.mem[lf]? = some (.int a)) (ht : s.mem[lt]? = some (.int b))
-    (hc : convTo p.ty (.slc (some so)) = none) (hd : p.dims = [f, t]) :
+/-- **Extent and bound names are references, evaluated where they are used.**  Calling `f(p[n1, …])` (array, range or
+slice parameter with names) looks at NOTHING of the argument: each name is bound to a fresh cell holding the reference
+`(cell of p, position of the name)` — so a nil argument is accepted by the call. -/
+theorem parameter_names_are_references (p : Param) (l : Loc) (n1 n2 : Name) (env : Env) (s : St) (v : Val)
+    (hv : s.mem[l]? = some v) (hc : convTo p.ty v = none) (hd : p.dims = [n1, n2]) :
     bindParams [p] [l] env s =
-      .ok ((t, s.mem.size + 1) :: (f, s.mem.size) :: (p.name, l) :: env)
-        { s with mem := (s.mem.push (.int 0)).push (.int (Int32.ofInt (if b.toInt > a.toInt then b.toInt - a.toInt else a.toInt - b.toInt))) } := by
-  simp only [bindParams, convCell, bindDimsOf, bindDimsCells, slcDimCells, bind_eq, M.bind, load, hv, hs, hc, hd, pure, M.pure,
-    List.isEmpty_cons, Bool.false_eq_true, if_false, bindNames, rngBounds_ok s ro lf lt a b hr hf ht, sliceDimVals, allocInts,
-    alloc, Array.size_push]
-  rfl
+      .ok ((n2, s.mem.size + 1) :: (n1, s.mem.size) :: (p.name, l) :: env)
+        { s with mem := (s.mem.push (.dimRef l 0)).push (.dimRef l 1) } := by
+  simp only [bindParams, convCell, bindDimsOf, bindDimRefs, bind_eq, M.bind, load, hv, hc, hd, pure, M.pure,
+    List.isEmpty_cons, Bool.false_eq_true, if_false, alloc, Array.size_push]
+
+/-- **A bound name of a range parameter is the range's own cell.**  In `func f(r[lo .. hi] : range)`, a use of `hi`
+(bound to the reference `(cell of r, 1)`) evaluates — at that moment — to the `to` CELL of the range `r` holds: no copy,
+no allocation; an assignment through a variable used as the bound is seen, and a nil `r` raises `nil_pointer` HERE. -/
+theorem range_bound_name_is_the_bound_cell (n : Nat) (ctx : Ctx) (env : Env) (x : Name) (c p o : Loc) (k : Nat)
+    (bs : Array Loc) (b : Loc) (s : St)
+    (hx : lookup x env = some c) (hc : s.mem[c]? = some (.dimRef p k))
+    (hp : s.mem[p]? = some (.rng (some o))) (ho : s.mem[o]? = some (.rngObj bs)) (hb : bs[k]? = some b) :
+    evalE (n + 1) ctx env (.dimVar x) s = .ok b s := by
+  simp only [evalE, hx, bind_eq, M.bind, load, hc, dimValue, hp, ho, hb]; rfl
+
+/-- **An extent name is read from the array the parameter holds when the name is used** (a fresh int), and the bound
+names of a slice parameter `s[f .. t] : T` are fresh ints 0 and |to − from| (`ID_DIM_SLICE`) -/
+theorem extent_name_is_read_at_use (n : Nat) (ctx : Ctx) (env : Env) (x : Name) (c p o : Loc) (k : Nat)
+    (dims : List Nat) (elems : Array Loc) (e : Nat) (s : St)
+    (hx : lookup x env = some c) (hc : s.mem[c]? = some (.dimRef p k))
+    (hp : s.mem[p]? = some (.arr (some o))) (ho : s.mem[o]? = some (.arrObj dims elems)) (he : dims[k]? = some e) :
+    evalE (n + 1) ctx env (.dimVar x) s = alloc (.int (Int32.ofNat e)) s := by
+  simp only [evalE, hx, bind_eq, M.bind, load, hc, dimValue, hp, ho, he]
+
+theorem slice_bound_names (n : Nat) (ctx : Ctx) (env : Env) (x : Name) (c p so ao ro lf lt : Loc) (a b : Int32) (s : St)
+    (hx : lookup x env = some c) (hp : s.mem[p]? = some (.slc (some so))) (hs : s.mem[so]? = some (.slcObj ao ro))
+    (hr : s.mem[ro]? = some (.rngObj #[lf, lt])) (hf : s.mem[lf]? = some (.int a)) (ht : s.mem[lt]? = some (.int b)) :
+    (s.mem[c]? = some (.dimRef p 0) → evalE (n + 1) ctx env (.dimVar x) s = alloc (.int 0) s) ∧
+    (s.mem[c]? = some (.dimRef p 1) → evalE (n + 1) ctx env (.dimVar x) s =
+      alloc (.int (Int32.ofInt (if b.toInt > a.toInt then b.toInt - a.toInt else a.toInt - b.toInt))) s) := by
+  constructor
+  · intro hc
+    simp only [evalE, hx, bind_eq, M.bind, load, hc, dimValue, hp, hs]; rfl
+  · intro hc
+    have h1 : (1 : Nat) % 2 = 0 ↔ False := by decide
+    simp only [evalE, hx, bind_eq, M.bind, load, hc, dimValue, hp, hs, h1, if_false, rngBounds_ok s ro lf lt a b hr hf ht]
+    rfl
+
+/-- **A nil array, range or slice raises `nil_pointer` where one of its names is used** (not at the call; a callee that
+never uses the names runs normally) -/
+theorem name_of_nil_parameter_raises (n : Nat) (ctx : Ctx) (env : Env) (x : Name) (c p : Loc) (k : Nat) (s : St) (v : Val)
+    (hx : lookup x env = some c) (hc : s.mem[c]? = some (.dimRef p k)) (hp : s.mem[p]? = some v)
+    (hv : v = .arr none ∨ v = .rng none ∨ v = .slc none) :
+    evalE (n + 1) ctx env (.dimVar x) s = throwE .nil_pointer s := by
+  rcases hv with rfl | rfl | rfl <;> simp only [evalE, hx, bind_eq, M.bind, load, hc, dimValue, hp]
+
+/-- a loop or a comprehension over a nil array raises `nil_pointer` (`ID_DIM_LOCAL` since repo fix 7100a94) -/
+theorem for_in_nil_array_raises (f : Nat) (ctx : Ctx) (env : Env) (x : Name) (lc : Loc) (i : Nat) (b : Expr) (s : St)
+    (qs : List Qual) (body : Expr) (ty : Ty) (o : Loc) (h : s.mem[lc]? = some (.arr none)) :
+    evalForIn (f + 1) ctx env x lc i b s = throwE .nil_pointer s ∧
+    evalGen (f + 1) ctx env x lc i qs body ty o s = throwE .nil_pointer s := by
+  constructor <;> simp only [evalForIn, evalGen, bind_eq, M.bind, load, h]
+
+/-! ### element-wise array arithmetic -/
+
+/-- **`a + b`, `a - b` on arrays: shape conformance, then element by element.**  For two non-nil arrays with extents `d1`,
+`d2`: exactly when C12's guard `Idx.canAdd` holds — i.e. (`Idx.shape_conformance`) same number of dimensions and the
+same extents, `d1 = d2` — the result is a fresh array of that shape whose cells hold `binop op` of the corresponding
+elements, in order; otherwise `wrong_array_size` is raised and nothing is allocated. -/
+theorem array_add_shape_conformance (op : BinOp) (s : St) (o1 o2 : Loc) (d1 d2 : List Nat) (e1 e2 : Array Loc)
+    (h1 : s.mem[o1]? = some (.arrObj d1 e1)) (h2 : s.mem[o2]? = some (.arrObj d2 e2)) :
+    (Idx.canAdd (extDv d1) (extDv d2) = true ↔ d1 = d2) ∧
+    arrZip op (some o1) (some o2) s =
+      if d1 = d2 then
+        (do let v1 ← loadVals e1.toList
+            let v2 ← loadVals e2.toList
+            let cells ← allocRes (List.zipWith (binop op) v1 v2)
+            newArr d2 cells) s
+      else throwE .wrong_array_size s := by
+  refine ⟨canAdd_extDv d1 d2, ?_⟩
+  by_cases h : d1 = d2
+  · simp only [arrZip, arrObjOf, bind_eq, M.bind, load, h1, h2, pure, M.pure, (canAdd_extDv d1 d2).mpr h, if_true, if_pos h]
+  · have hc : Idx.canAdd (extDv d1) (extDv d2) = false := by
+      cases hx : Idx.canAdd (extDv d1) (extDv d2)
+      · rfl
+      · exact absurd ((canAdd_extDv d1 d2).mp hx) h
+    simp only [arrZip, arrObjOf, bind_eq, M.bind, load, h1, h2, pure, M.pure, hc, Bool.false_eq_true, if_false, if_neg h]
+
+/-- the cells of an element-wise result: when every element operation yields a value, the new cells are consecutive
+fresh cells holding those values in order (nothing else changes) -/
+theorem elementwise_result_cells (vs : List Val) (s : St) :
+    allocRes (vs.map OpRes.val) s =
+      .ok ((List.range vs.length).map (fun k => s.mem.size + k)) { s with mem := s.mem ++ vs.toArray } :=
+  allocRes_vals vs s
+
+/-- **`a * b` on arrays is the matrix product, guarded by C12's `Idx.canMult`**: both 2-dimensional with
+columns(a) = rows(b) (`Idx.shape_conformance`), result `rows(a) × columns(b)` with entries `Σ_k a[i,k] * b[k,j]` computed in
+the element type starting from 0 (`matEntries`); any other pair of shapes raises `wrong_array_size`. -/
+theorem array_mul_shape_conformance (s : St) (o1 o2 : Loc) (d1 d2 : List Nat) (e1 e2 : Array Loc)
+    (h1 : s.mem[o1]? = some (.arrObj d1 e1)) (h2 : s.mem[o2]? = some (.arrObj d2 e2)) :
+    (∀ r1 c1 c2, d1 = [r1, c1] → d2 = [c1, c2] →
+      matMul (some o1) (some o2) s =
+        (do let v1 ← loadVals e1.toList
+            let v2 ← loadVals e2.toList
+            let cells ← allocRes (matEntries r1 c1 c2 v1 v2)
+            newArr [r1, c2] cells) s) ∧
+    ((¬ ∃ r1 c1 c2, d1 = [r1, c1] ∧ d2 = [c1, c2]) → matMul (some o1) (some o2) s = throwE .wrong_array_size s) := by
+  constructor
+  · rintro r1 c1 c2 rfl rfl
+    have hc := (canMult_extDv [r1, c1] [c1, c2]).mpr ⟨r1, c1, c2, rfl, rfl⟩
+    simp only [matMul, arrObjOf, bind_eq, M.bind, load, h1, h2, pure, M.pure, hc, if_true]
+  · intro hn
+    have hc : Idx.canMult (extDv d1) (extDv d2) = false := by
+      cases hx : Idx.canMult (extDv d1) (extDv d2)
+      · rfl
+      · exact absurd ((canMult_extDv d1 d2).mp hx) hn
+    simp only [matMul, arrObjOf, bind_eq, M.bind, load, h1, h2, pure, M.pure, hc, Bool.false_eq_true, if_false]
+
+/-- a nil operand of array arithmetic raises `nil_pointer` (before any shape is looked at) -/
+theorem array_arith_nil (op : BinOp) (a : Option Loc) (f : Val → OpRes) (s : St) :
+    arrZip op none a s = throwE .nil_pointer s ∧ arrZip op a none s = throwE .nil_pointer s ∧
+    matMul none a s = throwE .nil_pointer s ∧ matMul a none s = throwE .nil_pointer s ∧
+    arrMap f none s = throwE .nil_pointer s := by
+  cases a <;> simp [arrZip, matMul, arrMap]
 
 /-! ### the pipe operator -/
 
@@ -582,20 +679,41 @@ example : evalE 5 {} [("s", 8), ("a", 9), ("i", 10), ("j", 11)] (.index (.var "s
     = evalE 5 {} [("s", 8), ("a", 9), ("i", 10), ("j", 11)] (.index (.var "a") [.var "j"]) stE :=
   slice_element_is_array_element 2 {} _ "s" "a" 8 9 stE 3 4 2 0 1 2 0 1 rfl rfl rfl rfl rfl rfl rfl rfl (by decide) (by decide)
     10 11 rfl rfl (by decide) "i" "j" rfl rfl
-/-- `range_parameter_names_alias_bounds` / `slice_parameter_names` on concrete stores (cell 3 / cell 8 hold the references) -/
-example : bindParams [{ name := "r", ty := .rng, dims := ["lo", "hi"] }] [3] [] { stR with mem := stR.mem.push (.rng (some 2)) }
-    = .ok [("hi", 1), ("lo", 0), ("r", 3)] { stR with mem := stR.mem.push (.rng (some 2)) } :=
-  range_parameter_names_alias_bounds _ 3 2 0 1 "lo" "hi" [] _ rfl rfl rfl rfl
-example : (bindParams [{ name := "s", ty := .slc, dims := ["f", "t"] }] [8] [] stE matches .ok [("t", 13), ("f", 12), ("s", 8)] _) = true := by
-  rw [slice_parameter_names _ 8 3 4 2 0 1 "f" "t" 2 0 [] stE rfl rfl rfl rfl rfl rfl rfl]; rfl
+/-- `parameter_names_are_references` and the use-site theorems on concrete stores (cell 3 / cell 8 hold the references) -/
+example : (bindParams [{ name := "r", ty := .rng, dims := ["lo", "hi"] }] [3] [] { stR with mem := stR.mem.push (.rng (some 2)) }
+    matches .ok [("hi", 5), ("lo", 4), ("r", 3)] _) = true := by
+  rw [parameter_names_are_references _ 3 "lo" "hi" [] _ (.rng (some 2)) rfl rfl rfl]; rfl
+private def stP : St := { mem := (stE.mem.push (.dimRef 8 1)).push (.dimRef 9 0) ++ #[.rng (some 2), .dimRef 14 1, .arr none, .dimRef 16 0] }
+example : evalE 1 {} [("t", 12)] (.dimVar "t") stP = alloc (.int 2) stP :=
+  (slice_bound_names 0 {} _ "t" 12 8 3 4 2 0 1 2 0 stP rfl rfl rfl rfl rfl rfl).2 rfl
+example : evalE 1 {} [("D", 13)] (.dimVar "D") stP = alloc (.int 3) stP :=
+  extent_name_is_read_at_use 0 {} _ "D" 13 9 4 0 [3] #[5, 6, 7] 3 stP rfl rfl rfl rfl rfl
+example : evalE 1 {} [("hi", 15)] (.dimVar "hi") stP = .ok 1 stP :=
+  range_bound_name_is_the_bound_cell 0 {} _ "hi" 15 14 2 1 #[0, 1] 1 stP rfl rfl rfl rfl rfl
+example : evalE 1 {} [("D", 17)] (.dimVar "D") stP = throwE .nil_pointer stP :=
+  name_of_nil_parameter_raises 0 {} _ "D" 17 16 0 stP _ rfl rfl rfl (Or.inl rfl)
+example : evalForIn 1 {} [] "x" 16 0 (.var "x") stP = throwE .nil_pointer stP :=
+  (for_in_nil_array_raises 0 {} [] "x" 16 0 (.var "x") stP [] (.var "x") .int 0 rfl).1
 /-- `func f([lo .. hi] : range) -> int { hi - lo }` applied to `[3 .. 10]` is 7; `func g(s[f .. t] : int) -> int { t }` applied
-to `arr[3 .. 1]` is 2 -/
+to `arr[3 .. 1]` is 2; `func d(var a[D] : int, b[E] : int) -> int { a = b; D }` applied to arrays of 4 and 2 elements is 2
+(the extent is read when `D` is used); `func d(a[D] : int) -> int { D } catch (nil_pointer) { 0 - 3 }` applied to a nil
+element is −3, and 7 when the body is `7` -/
 example : (eval { recs := [], enums := [], funcs := [
-    .mk 0 "f" [{ name := "", ty := .rng, dims := ["lo", "hi"] }] .int (.bin .sub (.var "hi") (.var "lo")) [],
+    .mk 0 "f" [{ name := "", ty := .rng, dims := ["lo", "hi"] }] .int (.bin .sub (.dimVar "hi") (.dimVar "lo")) [],
     .mk 1 "main" [] .int (.call (.var "f") [.range [i 3, i 10]]) []] } [] 30).int? = some 7 := by decide +kernel
 example : (eval { recs := [], enums := [], funcs := [
-    .mk 0 "g" [{ name := "s", ty := .slc, dims := ["f", "t"] }] .int (.var "t") [],
+    .mk 0 "g" [{ name := "s", ty := .slc, dims := ["f", "t"] }] .int (.dimVar "t") [],
     .mk 1 "main" [] .int (.call (.var "g") [.slice arr4 [i 3, i 1]]) []] } [] 30).int? = some 2 := by decide +kernel
+example : (eval { recs := [], enums := [], funcs := [
+    .mk 0 "d" [{ name := "a", ty := .arr, dims := ["D"] }, { name := "b", ty := .arr, dims := ["E"] }] .int
+      (.seq [.expr (.assign (.var "a") (.var "b")), .expr (.dimVar "D")]) [],
+    .mk 1 "main" [] .int (.call (.var "d") [arr4, .arrLit [2] [i 1, i 2] .int]) []] } [] 30).int? = some 2 := by decide +kernel
+example : (eval { recs := [], enums := [], funcs := [
+    .mk 0 "d" [{ name := "a", ty := .arr, dims := ["D"] }] .int (.dimVar "D") [.mk (some .nil_pointer) (.un .neg (i 3))],
+    .mk 1 "main" [] .int (.call (.var "d") [.index (.arrNew [i 2] .arr) [i 0]]) []] } [] 30).int? = some (-3) := by decide +kernel
+example : (eval { recs := [], enums := [], funcs := [
+    .mk 0 "d" [{ name := "a", ty := .arr, dims := ["D"] }] .int (i 7) [.mk (some .nil_pointer) (.un .neg (i 3))],
+    .mk 1 "main" [] .int (.call (.var "d") [.index (.arrNew [i 2] .arr) [i 0]]) []] } [] 30).int? = some 7 := by decide +kernel
 /-- the hypotheses of `comprehension_over_range_denotation` on a concrete store: cell 0 holds `to` = 1, cell 1 is the empty
 array object; from = 3: three new cells 2, 3, 4 hold 3, 2, 1 and the array object lists them -/
 private def stC : St := { mem := #[.int 1, .arrObj [0] #[]] }
@@ -605,6 +723,31 @@ example : ∃ s', evalGenRng 6 {} [] "x" none 3 (decide ((3 : Int) < (1 : Int32)
   obtain ⟨s', h1, h2, h3, h4, _, _⟩ := comprehension_over_range_denotation {} [] "x" 0 1 3 1 6 stC [0] #[] rfl rfl (by decide)
     (by decide) (by decide)
   exact ⟨s', h1, h2, h3, h4 0 (by decide), h4 1 (by decide), h4 2 (by decide)⟩
+
+/-! array arithmetic -/
+
+private def a3 (x y z : Int) : Expr := .arrLit [3] [i x, i y, i z] .int
+private def prtAll (e : Expr) : Item := .expr (.forIn "q" e (.builtin .print [.var "q"]))
+/-- `[1,2,3] + [10,20,30]` is `[11,22,33]`; `2 * [3,5,7]` is `[6,10,14]`; `-[1,2,3]`; `[5,5,5] - [1,2,3]` -/
+example : (eval (mk [prtAll (.bin .add (a3 1 2 3) (a3 10 20 30))]) [] 40).out = [49, 49, 13, 10, 50, 50, 13, 10, 51, 51, 13, 10] := by decide +kernel
+example : (eval (mk [prtAll (.bin .mul (i 2) (a3 3 5 7))]) [] 40).out = [54, 13, 10, 49, 48, 13, 10, 49, 52, 13, 10] := by decide +kernel
+example : (eval (mk [prtAll (.un .neg (a3 1 2 3))]) [] 40).out = [45, 49, 13, 10, 45, 50, 13, 10, 45, 51, 13, 10] := by decide +kernel
+example : (eval (mk [prtAll (.bin .sub (a3 5 5 5) (a3 1 2 3))]) [] 40).out = [52, 13, 10, 51, 13, 10, 50, 13, 10] := by decide +kernel
+/-- shapes that do not conform: `[1,2,3] + [1,2]` raises `wrong_array_size` (`array_add_shape_conformance`) -/
+example : (eval (mk [prtAll (.bin .add (a3 1 2 3) (.arrLit [2] [i 1, i 2] .int))]) [] 40).exc? = some .wrong_array_size := by decide +kernel
+/-- `[[1,2],[3,4]] * [[5,6],[7,8]]` is `[[19,22],[43,50]]`; a 2×2 times a 3×1 raises `wrong_array_size` -/
+example : (eval (mk [prtAll (.index (.bin .mul (.arrLit [2, 2] [i 1, i 2, i 3, i 4] .int) (.arrLit [2, 2] [i 5, i 6, i 7, i 8] .int)) [i 1, i 0]
+    |> fun e => .arrLit [1] [e] .int)]) [] 40).out = [52, 51, 13, 10] := by decide +kernel
+example : (eval (mk [.expr (.index (.bin .mul (.arrLit [2, 2] [i 1, i 2, i 3, i 4] .int) (.arrLit [3, 1] [i 5, i 6, i 7] .int)) [i 0, i 0])]) [] 40).exc?
+    = some .wrong_array_size := by decide +kernel
+/-- the hypotheses of the store-level theorems: two array objects of extents `[2]` and `[3]` -/
+private def stA : St := { mem := #[.arrObj [2] #[2, 3], .arrObj [3] #[2, 3, 4], .int 1, .int 2, .int 3] }
+example : arrZip .add (some 0) (some 1) stA = throwE .wrong_array_size stA := by
+  rw [(array_add_shape_conformance .add stA 0 1 [2] [3] _ _ rfl rfl).2]; rfl
+example : (arrZip .add (some 0) (some 0) stA matches .ok (.arr (some 7)) _) = true := by
+  rw [(array_add_shape_conformance .add stA 0 0 [2] [2] _ _ rfl rfl).2]; rfl
+example : matMul (some 0) (some 1) stA = throwE .wrong_array_size stA :=
+  (array_mul_shape_conformance stA 0 1 [2] [3] _ _ rfl rfl).2 (by rintro ⟨r1, c1, c2, h, _⟩; cases h)
 
 end Examples
 
